@@ -36,20 +36,22 @@ import (
 	"os"
 	"path/filepath"
 	"sort"
+	"strconv"
 	"strings"
 )
 
 type spec struct {
-	Namespace string `json:"namespace"`
-	Module    string `json:"module"`
-	Out       string   `json:"out"`         // file name under lean/MidiModel/Generated/
-	Imports   []string `json:"imports"`     // further Lean modules to import (translations of the extern packages)
-	Extern    []string `json:"extern_pkgs"` // packages (relative to the module) whose functions are emitted elsewhere
-	ExternStructs []string `json:"extern_structs"` // structures (Lean names) that an imported translation already declares
-	NilIsEmpty bool    `json:"nil_is_empty"` // translate `slice == nil` as "is empty" (sound where the slice is never empty-but-non-nil)
-	Roots     []struct {
-		Pkg      string   `json:"pkg"`
-		Names    []string `json:"names"`
+	Namespace      string   `json:"namespace"`
+	Module         string   `json:"module"`
+	Out            string   `json:"out"`              // file name under lean/MidiModel/Generated/
+	Imports        []string `json:"imports"`          // further Lean modules to import (translations of the extern packages)
+	Extern         []string `json:"extern_pkgs"`      // packages (relative to the module) whose functions are emitted elsewhere
+	ExternStructs  []string `json:"extern_structs"`   // structures (Lean names) that an imported translation already declares
+	StringsAsBytes bool     `json:"strings_as_bytes"` // a Go string is the list of its bytes (conversions to and from []byte are the identity, literals are spelled out); without it strings are opaque
+	NilIsEmpty     bool     `json:"nil_is_empty"`     // translate `slice == nil` as "is empty" (sound where the slice is never empty-but-non-nil)
+	Roots          []struct {
+		Pkg      string     `json:"pkg"`
+		Names    []string   `json:"names"`
 		Closures []struct { // function literals assigned to a local variable: `var <Var> = func(...) {...}` inside <Func>
 			Func  string `json:"func"`
 			Var   string `json:"var"`
@@ -133,25 +135,25 @@ type closure struct {
 }
 
 type tr struct {
-	l       *loader
-	sp      spec
-	out     strings.Builder
-	funcs   map[*types.Func]*ast.FuncDecl
-	fpkg    map[*types.Func]*pkgInfo
-	order   []*types.Func // translation order (callees first)
-	state   map[*types.Func]int
-	structs []*types.Named
-	sseen   map[*types.Named]bool
-	monadic map[*types.Func]bool
-	mutates map[*types.Func]bool
+	l          *loader
+	sp         spec
+	out        strings.Builder
+	funcs      map[*types.Func]*ast.FuncDecl
+	fpkg       map[*types.Func]*pkgInfo
+	order      []*types.Func // translation order (callees first)
+	state      map[*types.Func]int
+	structs    []*types.Named
+	sseen      map[*types.Named]bool
+	monadic    map[*types.Func]bool
+	mutates    map[*types.Func]bool
 	usedFields map[*types.Var]bool
-	closures []*closure
-	maps     map[*types.Var]string // package-level map variables that are read: their Lean rendering
-	mapOrder []*types.Var
+	closures   []*closure
+	maps       map[*types.Var]string // package-level map variables that are read: their Lean rendering
+	mapOrder   []*types.Var
 	// closure being translated: captured variables live in `env`
-	env      map[types.Object]bool
-	envFuncs map[types.Object]*types.Signature
-	recvName string
+	env         map[types.Object]bool
+	envFuncs    map[types.Object]*types.Signature
+	recvName    string
 	closureBase string
 	inoutNames  []string
 	// per function
@@ -961,6 +963,9 @@ func (t *tr) leanType(n ast.Node, ty types.Type) string {
 		case types.Bool, types.UntypedBool:
 			return "Bool"
 		case types.String, types.UntypedString:
+			if t.sp.StringsAsBytes {
+				return "(List Nat)"
+			}
 			return "String"
 		}
 	case *types.Slice:
@@ -1004,6 +1009,9 @@ func (t *tr) zero(n ast.Node, ty types.Type) string {
 		case types.Bool:
 			return "false"
 		case types.String:
+			if t.sp.StringsAsBytes {
+				return "([] : List Nat)"
+			}
 			return "\"\""
 		}
 	case *types.Slice:
@@ -1044,7 +1052,9 @@ func simpleType(ty types.Type) bool {
 
 func pkgShort(p *types.Package) string { return p.Name() }
 
-func (t *tr) structName(n *types.Named) string { return pkgShort(n.Obj().Pkg()) + "." + name(n.Obj().Name()) }
+func (t *tr) structName(n *types.Named) string {
+	return pkgShort(n.Obj().Pkg()) + "." + name(n.Obj().Name())
+}
 
 func (t *tr) funcName(f *types.Func) string {
 	sig := f.Type().(*types.Signature)
@@ -2031,6 +2041,13 @@ func (t *tr) constant(e ast.Expr, tv types.TypeAndValue) (string, bool) {
 		}
 		return "(" + s + " : Nat)", true
 	case constant.String:
+		if t.sp.StringsAsBytes {
+			var bs []string
+			for _, b := range []byte(constant.StringVal(tv.Value)) {
+				bs = append(bs, strconv.Itoa(int(b)))
+			}
+			return "([" + strings.Join(bs, ", ") + "] : List Nat)", true
+		}
 		return "\"\"", true // strings only feed panics and error texts, which are not modelled
 	}
 	return "", false
@@ -2431,7 +2448,12 @@ func (t *tr) callExpr(c *ast.CallExpr, tv types.TypeAndValue) string {
 			}
 		}
 		if b, ok := tv.Type.Underlying().(*types.Basic); ok && b.Kind() == types.String {
-			return "\"\""
+			if !t.sp.StringsAsBytes {
+				return "\"\""
+			}
+			if g := t.callee(t.p, c); g == nil || t.funcs[g] == nil {
+				t.fail(c, "string-valued call of %s outside the translated code (strings are values here)", exprString(c.Fun))
+			}
 		}
 	}
 	g := t.callee(t.p, c)
@@ -2488,6 +2510,24 @@ func (t *tr) convert(n ast.Node, arg ast.Expr, to types.Type) string {
 	// []byte(x) of a named slice type and the like
 	if _, ok := to.Underlying().(*types.Slice); ok {
 		if _, ok := from.Underlying().(*types.Slice); ok {
+			return a
+		}
+	}
+	// string <-> []byte: the identity when strings are their bytes
+	if t.sp.StringsAsBytes {
+		isStr := func(ty types.Type) bool {
+			b, ok := ty.Underlying().(*types.Basic)
+			return ok && b.Kind() == types.String
+		}
+		isBytes := func(ty types.Type) bool {
+			sl, ok := ty.Underlying().(*types.Slice)
+			if !ok {
+				return false
+			}
+			b, ok := sl.Elem().Underlying().(*types.Basic)
+			return ok && b.Kind() == types.Uint8
+		}
+		if isStr(from) && isBytes(to) || isBytes(from) && isStr(to) || isStr(from) && isStr(to) {
 			return a
 		}
 	}
